@@ -48,13 +48,13 @@ MANIFEST = {
                  "a shape outside the understood C++ subset is refused = broken tie; PropsGen.lean): `push_body_is_ringStep` / `pop_body_is_ringStep` (the translated bodies of LockFreeQueue::push/pop simulate the model's ringStep micro-step by micro-step: "
                  "same next program counter, locals, result and ring up to the ghost logs, for every ring whose capacity is a power of two, which `pool_ring_capacity_is_a_power_of_two` shows for every reachable state), "
                  "`fastsignal_set/reset/reset_recheck/wait_is_translated` (the four FastSignal frames of the model are the translated bodies), `queue_ctor_is_ring_init`, `queue_ctor_capacity_is_ceilPow2` (the constructor's bit smearing = ceilPow2 for every size 1..2^32), "
-                 "`pool_ctor_is_mkPool`, `lazy_pool_is_default_ctor`, `run_counters_are_translated` / `run_branch_is_translated` / `run_spawn_limit_is_translated` / `run_retire_clock_is_translated` (counter arithmetic and every condition of the if-chain of ThreadPool::run), "
+                 "`pool_ctor_is_mkPool`, `lazy_pool_is_default_ctor`, `run_decision_is_translated` (the branch the model takes after the two counter reads of ThreadPool::run is the decision tree the translator obtains from the current source by symbolic execution — counter arithmetic with usize/ssize wrap-around, every condition, nested ifs or early returns alike — for all counters below 2^62; the effect statements are opaque), `run_clock_cond_is_translated`, `run_clock_frames_do_what_the_tree_says`, `run_counters_are_translated`, "
                  "`join_is_translated`, `join_clear_is_translated`, `abort_is_translated`, `flags_are_translated`, `destructor_is_translated`, `set_is_translated`, `result_conversion_is_translated`, `proc_order_is_translated`, `fut_ctor_is_default`, "
                  "`flags_after_join_translated` (the last sentence of C10 with the translated isFinished()/isAborted()), `size_body_never_underflows` (LockFreeQueue::size against arbitrary concurrent steps).  "
                  "PropsRestart.lean: `abortReq_is_abort_since_last_start` (the ghost flag equals a scan of the run's event history: last arming / abort() / destruction of the future), `flags_after_join_across_restarts`, "
                  "`aborted_after_join_means_abort_since_last_start` (isAborted() after join implies an abort() on this object after its LAST start, for any sequence of starts / aborts / joins / destroys / re-starts), `restart_history_witness`."),
-        "note": ("Translated and proved equal to the model step (round 7, regenerated on every run): LockFreeQueue push/pop/size/constructor, FastSignal set/reset/wait, ThreadPool constructor, the counter arithmetic and branch conditions of ThreadPool::run, Future<void> constructor/destructor/join/abort/isAborting/isFinished/isAborted/set, Future<A> conversion/destructor (its other members are checked to be plain forwards), the action order of the two proc templates.  "
-                 "The translator's own assumptions: usize/ssize as Nat/Int without wrap-around, `x & _capacityMask` as `&&&` (= `%` for the power-of-two capacity, proved), node->head = (usize)-1 as `none`, a destructor call of the trivially destructible Job is no memory access, Atomic::* with their documented meaning, the ghost logs are not produced by the code.  "
+        "note": ("Translated and proved equal to the model step (round 7, regenerated on every run): LockFreeQueue push/pop/size/constructor, FastSignal set/reset/wait, ThreadPool constructor, the worker-count decision of ThreadPool::run (arithmetic with wrap-around + all conditions, as a decision tree), Future<void> constructor/destructor/join/abort/isAborting/isFinished/isAborted/set, Future<A> conversion/destructor (its other members are checked to be plain forwards), the action order of the two proc templates.  "
+                 "The translator's own assumptions: ring tickets as Nat without wrap-around (the counters of run() ARE translated with 64-bit wrap-around), `x & _capacityMask` as `&&&` (= `%` for the power-of-two capacity, proved), node->head = (usize)-1 as `none`, a destructor call of the trivially destructible Job is no memory access, Atomic::* with their documented meaning, the ghost logs are not produced by the code.  "
                  "HAND-translated and only tied by the step-by-step replay: the control skeleton of ThreadPool::run (push loop, spawn / retire branches under the mutex, purge of the context list), the worker loop ThreadContext::proc, ~ThreadPool, startProc (lazy pool under the spin lock), Signal.cpp; "
                  "sequentially consistent atomics; the "
                  "simulated POSIX semantics (mutex, condition variable with spurious wake-ups, create/join, virtual clock) is an assumption shared by scheduler and model; scheduling "
